@@ -5,6 +5,7 @@ package main
 // (current, old) and an environment of named values.
 
 import (
+	"os"
 	"sort"
 	"fmt"
 	"go/ast"
@@ -894,6 +895,28 @@ func (e *SpecEnv) evalCall(n *ast.CallExpr) *SV {
 		r := ne.eval(n.Args[0])
 		e.errs = ne.errs
 		return r
+	case "atloophead":
+		// atloophead(x): the value variable x had at the start of the current iteration
+		// of the innermost enclosing (cut) loop that carries x
+		id, ok := n.Args[0].(*ast.Ident)
+		if !ok {
+			e.fail("atloophead(x) expects a variable name")
+			return nil
+		}
+		var best *ssa.Phi
+		for ph := range e.g.cutPhi {
+			if ph.Comment != id.Name || e.g.curBlk == nil || !ph.Block().Dominates(e.g.curBlk) {
+				continue
+			}
+			if best == nil || best.Block().Dominates(ph.Block()) {
+				best = ph
+			}
+		}
+		if best == nil {
+			e.fail("atloophead(%s): no enclosing loop carries this variable", id.Name)
+			return nil
+		}
+		return &SV{V: e.g.cutPhi[best], St: e.cur}
 	case "loopentry":
 		// loopentry(x): the value variable x had when the enclosing (cut) loop was entered
 		id, ok := n.Args[0].(*ast.Ident)
@@ -1038,7 +1061,13 @@ func (e *SpecEnv) evalCall(n *ast.CallExpr) *SV {
 		// existential, so offering the range-loop indices in scope as disjuncts
 		// is an equivalence-preserving help for the solver
 		res := Exists([]*Term{k}, And(rng, And(captured...), body.V.L[0]))
-		for _, w := range append(e.g.rangeIndexTerms(), Int(0), Int(1)) {
+		hints := append(e.g.rangeIndexTerms(), Int(0), Int(1))
+		if os.Getenv("HVC_NO_SUCC_HINTS") == "" {
+			for _, w := range e.g.rangeIndexTerms() {
+				hints = append(hints, Add(w, Int(1)))
+			}
+		}
+		for _, w := range hints {
 			he := e.clone()
 			he.vars[id.Name] = svInt(w)
 			he.vars[id.Name].V.T = types.Typ[types.Int]
@@ -1424,9 +1453,8 @@ func (e *SpecEnv) evalCall(n *ast.CallExpr) *SV {
 			return nil
 		}
 		nm := a.V.L[0].S
-		_, ok1 := e.g.varAt[nm]
-		_, ok2 := e.g.varAt["&"+nm]
-		return svBool(Bool(ok1 || ok2))
+		_, ok1 := e.vars[nm]
+		return svBool(Bool(ok1))
 	case "fnname":
 		// fnname(f): the (unqualified) name of the function or method a
 		// function value was made from; unconstrained for unknown values
